@@ -4,6 +4,11 @@ CONSTANTS
   EditPlan <- Plan11
   Twin = FALSE
   Modes = {"inc", "incskip", "force", "forceskip"}
+  FlagSet = {"none", "ignore-ctime", "ignore-inode"}
+  Targets = {"dir"}
+  Bigs = {FALSE}
+  FaultKinds = {}
+  MaxVictim = 0
   Emit = FALSE
 INVARIANT NeverOmits
 VIEW View
